@@ -3,9 +3,13 @@
     the specification vocabulary ([shape_spec], [guar_nodes], [wf_nodes], [frame_nodes], [field_at],
     [names_disjoint]) are in Derive/DeriveProofs.v. *)
 From ClapModel Require Import Base.Bytes Base.Utf8.
-From ClapModel Require Import Parse.Cmd Parse.Matcher Parse.Errors Parse.Parser.
+From ClapModel Require Import Parse.Cmd Parse.Build Parse.Valid Parse.Matcher Parse.Errors Parse.Parser.
 From ClapModel Require Import Value.PossibleValues.
 From ClapModel Require Import Derive.DeriveModel Derive.DeriveProofs.
+From ClapModel Require Import ParseProofs.Actions ParseProofs.ActionsLoop ParseProofs.Unparse ParseProofs.UnparseTop ParseProofs.UnparseTree.
+From ClapModel Require Import Derive.DeriveCmd Derive.DeriveArgs Derive.DeriveParse Derive.DeriveUpdate Derive.DeriveAccept Derive.DeriveParseEx.
+From Coq Require Import ZArith List.
+Import ListNotations.
 Open Scope N_scope.
 
 (** Derived parsing succeeds exactly when the command's parse does: on every matches that meets the
@@ -95,3 +99,211 @@ Theorem C15_roundtrip_scalars_partial :
   /\ (forall e ic x, names_disjoint ic e -> Forall (fun v => utf8_valid (pv_name (vv_pv v)) = true) e -> srt (TEnum e) ic x).
 Proof. exact scalars_roundtrip. Qed.
 Print Assumptions C15_roundtrip_scalars_partial.
+
+(** * Composition with the parser model (round 2; Derive/DeriveCmd.v, DeriveArgs.v, DeriveParse.v)
+
+    Vocabulary: [built d bin] = [_build_self] of the generated command with [argv[0]] as binary name;
+    [fields_only] = a struct whose members are all argument fields; [kind_ok] = named by [--long] or [-s], the name
+    typable, not the generated help flag's; [opt_struct d] = such a struct with pairwise distinct names and ids, no
+    [value_delimiter], no nested-vector shape; [nodes_items] = the invocation (C02's items) the canonical printer writes;
+    [nodes_occs] = its occurrences, one per printed group; [field_form] / [group_fits] ([printable]) = the printed groups
+    have the form of the field's action (Set: one group; Append: at least one; SetTrue: one empty; Count: 1..255 empty)
+    and fit the option syntax (no value, or one attached value of an argument that takes values). *)
+
+(** FIRST SENTENCE OF THE PROPERTY.  The derived parser returns a value exactly when the generated command's parse
+    succeeds (with the enum value check) and extraction then succeeds, and it is that value ... *)
+Theorem C15_parse_is_command_then_extract : forall d argv vs,
+  derived_parse d argv = PValue vs <->
+  exists m, parse_top (derive_cmd d) argv = OOk m /\ enum_ok_nodes (d_nodes d) m = true /\ extract d m = XOk vs.
+Proof. exact parse_factor. Qed.
+Print Assumptions C15_parse_is_command_then_extract.
+
+(** ... and it fails with a clap error exactly when the command's parse does, the enum check does, or extraction does
+    (the third disjunct is what [C15_extract_total] excludes on the command's own guarantees). *)
+Theorem C15_parse_error_is_command_or_extract : forall d argv k,
+  derived_parse d argv = PError k <->
+  (exists e, parse_top (derive_cmd d) argv = OErr e /\ e_kind e = k)
+  \/ (exists m, parse_top (derive_cmd d) argv = OOk m /\ enum_ok_nodes (d_nodes d) m = false /\ k = EInvalidValue)
+  \/ (exists m, parse_top (derive_cmd d) argv = OOk m /\ enum_ok_nodes (d_nodes d) m = true /\ extract d m = XErr k).
+Proof. exact parse_factor_err. Qed.
+Print Assumptions C15_parse_error_is_command_or_extract.
+
+(** [gen_augment] in closed form: the argument generated for a field, for every field. *)
+Theorem C15_field_arg_closed_form : forall f, field_arg false f = field_arg_cf f.
+Proof. exact field_arg_closed. Qed.
+Print Assumptions C15_field_arg_closed_form.
+
+(** THE GENERATED COMMAND LIES IN C02'S CLASS.  For every struct of option fields that passes clap's own debug
+    assertions, the built command is conventional ([conv]), does not ignore errors, declares no overrides; and every
+    [--long] / [-s] of a field resolves, in the built key map, to that field's argument. *)
+Theorem C15_generated_command_conv : forall d bin,
+  fields_only (d_nodes d) = true -> Forall (fun f => kind_ok (f_kind f) = true) (fields_of (d_nodes d)) ->
+  valid (with_bin (derive_cmd d) bin) = true ->
+  conv (built d bin) = true /\ is_set s_ignore_errors (built d bin) = false /\ no_overrides (built d bin) = true.
+Proof.
+  intros d bin H1 H2 H3. split; [exact (built_conv d bin H1 H2 H3)|].
+  split; [exact (built_no_ignore_errors d bin H1)|exact (built_no_overrides d bin H1 H2)].
+Qed.
+Print Assumptions C15_generated_command_conv.
+
+Theorem C15_generated_keys : forall d bin,
+  fields_only (d_nodes d) = true -> Forall (fun f => kind_ok (f_kind f) = true) (fields_of (d_nodes d)) ->
+  NoDup (map f_kind (fields_of (d_nodes d))) ->
+  forall f, In f (fields_of (d_nodes d)) ->
+    (forall l, f_kind f = KLong l -> get_long (built d bin) l = Some (bf f))
+    /\ (forall c, f_kind f = KShort c -> get_short (built d bin) c = Some (bf f)).
+Proof.
+  intros d bin H1 H2 H3 f Hf. split; [intros l E; exact (lookup_long d bin H1 H2 H3 f l Hf E)|
+                                      intros c E; exact (lookup_short d bin H1 H2 H3 f c Hf E)].
+Qed.
+Print Assumptions C15_generated_keys.
+
+(** THE PRINTED LINE IS A RENDERED INVOCATION: [print d vs] is C02's [render] of [nodes_items], which is well formed
+    for the built command, and its occurrences are one per printed group, carrying exactly that group's values. *)
+Theorem C15_print_is_render : forall d bin vs argv,
+  opt_struct d -> printable (d_nodes d) vs -> print d vs = Some argv ->
+  argv = render_inv (ILeaf (nodes_items (d_nodes d) vs))
+  /\ wf_items (built d bin) PSValuesDone 1 (nodes_items (d_nodes d) vs) = true
+  /\ occs (built d bin) 1 (nodes_items (d_nodes d) vs) = nodes_occs (d_nodes d) vs.
+Proof. exact print_is_render. Qed.
+Print Assumptions C15_print_is_render.
+
+(** WHAT THE PRINTED LINE DENOTES (C07's abstract fold over the occurrences): for a field holding [v], the groups
+    the matches must report are those of the printed entry ([raw_of]: the groups themselves; ["true"] for a flag; the
+    decimal count for a counter), and nothing when the field is not mentioned. *)
+Theorem C15_print_denotes : forall d bin,
+  fields_only (d_nodes d) = true -> Forall (fun f => kind_ok (f_kind f) = true) (fields_of (d_nodes d)) ->
+  forall ns vs f v g, fields_only ns = true -> incl (fields_of ns) (fields_of (d_nodes d)) ->
+  NoDup (map f_id (fields_of ns)) -> at_node ns vs f v -> field_groups f v = Some g -> f_delim f = None ->
+  (forall gs, g = Some gs -> field_form f gs) ->
+  fold_left (step_abs (built d bin) (f_id f)) (nodes_occs ns vs) None = opt_map (raw_of f) g.
+Proof. exact denote_nodes. Qed.
+Print Assumptions C15_print_denotes.
+
+(** ROUND TRIP THROUGH THE PARSER MODEL (soundness).  For every struct of option fields and every printable value:
+    whenever the generated command accepts the printed line, extraction from the matches of THE REAL PARSE
+    ([parse_top], not [matches_of_print]) returns the value.  Uses C02_unparse (the parse is the fold of [react] over
+    the occurrences), C02's conservation, C06's default phase and [C15_roundtrip_field]. *)
+Theorem C15_roundtrip_parse_sound : forall d bin vs argv m,
+  opt_struct d -> printable (d_nodes d) vs -> ok_nodes (d_nodes d) vs ->
+  valid (with_bin (derive_cmd d) bin) = true ->
+  print d vs = Some argv ->
+  parse_top (derive_cmd d) (bin :: argv) = OOk m ->
+  extract d m = XOk vs.
+Proof. exact roundtrip_parse_sound. Qed.
+Print Assumptions C15_roundtrip_parse_sound.
+
+(** Non-vacuity: [{ vv: true, oo: Some(7), x: ["a","b"], c: 3 }] prints to [--vv --oo=7 -x=a -x=b -c -c -c]; every
+    hypothesis above holds, the command accepts the line, and the derived parser returns the value. *)
+Theorem C15_roundtrip_parse_nonvacuous :
+  opt_struct ParseEx.d /\ printable (d_nodes ParseEx.d) ParseEx.v /\ ok_nodes (d_nodes ParseEx.d) ParseEx.v
+  /\ valid (with_bin (derive_cmd ParseEx.d) b_prog) = true
+  /\ print ParseEx.d ParseEx.v = Some ParseEx.argv
+  /\ (exists m, parse_top (derive_cmd ParseEx.d) (b_prog :: ParseEx.argv) = OOk m)
+  /\ derived_parse ParseEx.d (b_prog :: ParseEx.argv) = PValue ParseEx.v.
+Proof.
+  split; [exact ParseEx.ex_struct|]. split; [exact ParseEx.ex_printable|]. split; [exact ParseEx.ex_ok|].
+  split; [exact ParseEx.ex_valid|]. split; [exact ParseEx.ex_print|].
+  split; [destruct ParseEx.ex_parses as [m [H _]]; exists m; exact H|exact ParseEx.ex_roundtrip].
+Qed.
+Print Assumptions C15_roundtrip_parse_nonvacuous.
+
+(** The same with the class stated on the derive input alone: [printable] follows from the attribute combinations of
+    [field_ok] (part of [ok_nodes]) when an explicit [num_args] agrees with the action ([takes_ok]). *)
+Theorem C15_roundtrip_parse_sound_class : forall d bin vs argv m,
+  opt_struct d -> Forall takes_ok (fields_of (d_nodes d)) -> ok_nodes (d_nodes d) vs ->
+  valid (with_bin (derive_cmd d) bin) = true ->
+  print d vs = Some argv ->
+  parse_top (derive_cmd d) (bin :: argv) = OOk m ->
+  extract d m = XOk vs.
+Proof. exact roundtrip_parse_sound_ok. Qed.
+Print Assumptions C15_roundtrip_parse_sound_class.
+
+(** WHEN EXTRACTION CAN FAIL AFTER A SUCCESSFUL COMMAND PARSE: exactly when the command does not declare the
+    requiredness the extraction relies on.  Witness: a plain field with [required = false] -- the command accepts the
+    empty line, extraction answers MissingRequiredArgument (model = implementation: corpus type BPlainNotRequired). *)
+Theorem C15_extract_after_parse_needs_required_refuted :
+  exists d argv m, parse_top (derive_cmd d) argv = OOk m /\ extract d m = XErr EMissingRequiredArgument
+                   /\ derived_parse d argv = PError EMissingRequiredArgument.
+Proof. exists NotRequiredEx.d, [b_prog]. exact NotRequiredEx.ex_extract_fails. Qed.
+Print Assumptions C15_extract_after_parse_needs_required_refuted.
+
+(** UPDATE CHANGES ONLY THE FIELDS NAMED ON THE COMMAND LINE, "named" read off the line itself: for every struct of
+    argument fields (options and positionals), every well-formed invocation [its] of the update command (C02's class:
+    long/short spellings, clusters, positional runs) and every field whose argument carries no default (no
+    [default_value], not a flag or counter): if no occurrence of the invocation belongs to the field's argument
+    ([count_occ] over C02's [occs]), a successful [try_update_from] on the rendered line leaves the field as it was.
+    (For default-bearing fields the statement is false: [C15_update_frame_argv_refuted].) *)
+Theorem C15_update_unnamed_untouched : forall d bin its vs vs' f,
+  fields_only (d_nodes d) = true -> In f (fields_of (d_nodes d)) -> bf_default f = [] ->
+  valid (with_bin (derive_cmd_for_update d) bin) = true ->
+  wf_inv (builtu d bin) (ILeaf its) = true ->
+  Actions.count_occ (f_id f) (occs (builtu d bin) 1 its) = 0%nat ->
+  derived_update d vs (bin :: render its) = PValue vs' ->
+  field_at (d_nodes d) vs' (f_id f) = field_at (d_nodes d) vs (f_id f).
+Proof. exact update_unnamed_untouched. Qed.
+Print Assumptions C15_update_unnamed_untouched.
+
+(** Non-vacuity: updating [{vv: false, oo: Some(7), x: ["a"], c: 3}] from [--vv -x=z] keeps [oo = Some(7)]. *)
+Theorem C15_update_unnamed_nonvacuous :
+  fields_only (d_nodes ParseEx.d) = true /\ In ParseEx.fo (fields_of (d_nodes ParseEx.d)) /\ bf_default ParseEx.fo = []
+  /\ valid (with_bin (derive_cmd_for_update ParseEx.d) b_prog) = true
+  /\ wf_inv (builtu ParseEx.d b_prog) (ILeaf UpdateEx.its) = true
+  /\ Actions.count_occ (f_id ParseEx.fo) (occs (builtu ParseEx.d b_prog) 1 UpdateEx.its) = 0%nat
+  /\ render UpdateEx.its = [[45;45;118;118]; [45;120;61;122]]
+  /\ derived_update ParseEx.d UpdateEx.v0 (b_prog :: render UpdateEx.its) = PValue UpdateEx.v1
+  /\ field_at (d_nodes ParseEx.d) UpdateEx.v1 (f_id ParseEx.fo) = Some (DOpt (Some (SvInt 7%Z))).
+Proof. exact UpdateEx.ex_update. Qed.
+Print Assumptions C15_update_unnamed_nonvacuous.
+
+(** ALL OUTCOMES ON A PRINTED LINE: the derived parser returns the printed value, or reports the generated command's own
+    rejection of the line (or the enum check's) -- never another value, never an error of extraction. *)
+Theorem C15_roundtrip_parse_outcomes : forall d bin vs argv,
+  opt_struct d -> Forall takes_ok (fields_of (d_nodes d)) -> ok_nodes (d_nodes d) vs ->
+  valid (with_bin (derive_cmd d) bin) = true -> print d vs = Some argv ->
+  match derived_parse d (bin :: argv) with
+  | PValue vs' => vs' = vs
+  | PError k => (exists e, parse_top (derive_cmd d) (bin :: argv) = OErr e /\ e_kind e = k)
+                \/ (exists m, parse_top (derive_cmd d) (bin :: argv) = OOk m /\ enum_ok_nodes (d_nodes d) m = false)
+  | PPanic _ | PInvalid => exists o, parse_top (derive_cmd d) (bin :: argv) = o /\ forall m, o <> OOk m
+  end.
+Proof. exact roundtrip_parse_outcomes. Qed.
+Print Assumptions C15_roundtrip_parse_outcomes.
+
+(** ONE STORING OCCURRENCE SUCCEEDS (any command, any argument): when the value count is accepted, the values pass the
+    argument's value parser and a Set-like argument is not yet present, [react] stores the occurrence. *)
+Theorem C15_react_succeeds : forall c idn a raw ti st vals vp,
+  wf_m (mt st) -> ~ In (a_id a) (groups_for_arg c (a_id a)) ->
+  verify_num_args c a raw st = ROk tt -> occ_values c a raw ti = Some vals -> a_vp a = Some vp ->
+  Forall (fun v => vp_parse vp v = None) (stored_vals a vals) ->
+  match a_get_action a with
+  | ASet | ASetTrue | ASetFalse => mt_contains (mt st) (a_id a) = false
+  | AAppend => True
+  | _ => False
+  end ->
+  exists st', react_core c idn SCmdLine a raw ti st = ROk (st', PRValuesDone).
+Proof. exact react_core_ok. Qed.
+Print Assumptions C15_react_succeeds.
+
+(** THE COMMAND-LINE PHASE ACCEPTS THE PRINTED LINE (partial towards [parse (print v) = Ok v]): if every printed group
+    passes the generated argument's own value-count check and value parser ([accepted_nodes]: the parser's own
+    [verify_num_args] / [vp_parse] on the built argument), every [react] of the token loop succeeds, and the parse of the
+    printed line is exactly the environment / default / validation phases applied to the state holding the printed groups.
+    MISSING for the full statement: those three phases succeed (defaults pass their value parser; validator completeness for a
+    command without relations) -- checked on every dround case. *)
+Theorem C15_print_cmdline_accepted_partial : forall d bin vs argv fuel,
+  opt_struct d -> printable (d_nodes d) vs -> accepted_nodes d bin (d_nodes d) vs ->
+  valid (with_bin (derive_cmd d) bin) = true -> print d vs = Some argv ->
+  exists st1, react_all (built d bin) (nodes_occs (d_nodes d) vs) ps_new = ROk st1
+              /\ get_matches_with (S fuel) (built d bin) argv ps_new = post_loop (built d bin) st1.
+Proof. exact print_cmdline_accepted. Qed.
+Print Assumptions C15_print_cmdline_accepted_partial.
+
+Theorem C15_print_cmdline_accepted_nonvacuous :
+  opt_struct ParseEx.d /\ printable (d_nodes ParseEx.d) ParseEx.v /\ accepted_nodes ParseEx.d b_prog (d_nodes ParseEx.d) ParseEx.v
+  /\ valid (with_bin (derive_cmd ParseEx.d) b_prog) = true /\ print ParseEx.d ParseEx.v = Some ParseEx.argv.
+Proof.
+  split; [exact ParseEx.ex_struct|]. split; [exact ParseEx.ex_printable|]. split; [exact ParseEx.ex_accepted|].
+  split; [exact ParseEx.ex_valid|exact ParseEx.ex_print].
+Qed.
+Print Assumptions C15_print_cmdline_accepted_nonvacuous.
